@@ -2,7 +2,7 @@
    Statements only; every proof is `exact <lemma>` from Proofs/CdsProofs.v (integer core)
    and Proofs/CdsFloatProofs.v (float views). *)
 From Coq Require Import ZArith List.
-From SP Require Import Base.Result Base.Bytes Model.Cds Model.CdsSoftFloat Model.CdsFloat Spec.CdsSpec Proofs.CdsProofs Proofs.CdsFloatProofs.
+From SP Require Import Base.Result Base.Bytes Model.Cds Model.CdsSoftFloat Model.CdsFloat Spec.CdsSpec Proofs.CdsProofs Proofs.CdsFloatProofs Proofs.CdsFloatOrder.
 Import ListNotations.
 Open Scope Z_scope.
 
@@ -95,6 +95,16 @@ Theorem C14_from_datetime_exact : forall ud sod us, dt_valid ud sod us ->
 Proof. exact cds_from_datetime_exact. Qed.
 Print Assumptions C14_from_datetime_exact.
 
+(* non-vacuity of dt_valid: the last microsecond before the Unix epoch.
+   A datetime enters the model as (days since 1970-01-01, second of day, microsecond): the civil
+   calendar (year / month / day -> day count, leap years) is CPython's `datetime` arithmetic
+   (`dt - epoch`, timedelta.days) and is OUTSIDE the model; the harness compares the model with
+   the implementation on real datetime objects. *)
+Example C14_dt_valid_inhabited :
+  dt_valid (-1) 86399 999999 /\
+  cds_from_datetime (-1) 86399 999999 = {| cdays := 4382; cms := 86399999 |}.
+Proof. exact dt_valid_example. Qed.
+
 (* ---- __add__: integer arithmetic on total milliseconds, normalised, OverflowError iff the
    day count would exceed 16 bits *)
 Theorem C14_add_correct : forall t dd ds du,
@@ -142,6 +152,24 @@ Theorem C14_unix_seconds_close : forall t, cds_valid t ->
   (i <> 0 -> fl_close u i 1000 21 /\ fl_normal u /\ (0 < i -> 0 < fm u) /\ (i < 0 -> fm u < 0)).
 Proof. exact cds_unix_seconds_close. Qed.
 Print Assumptions C14_unix_seconds_close.
+
+(* "later timestamps map to later instants" for the float view: as_unix_seconds is STRICTLY
+   monotone.  fl_lt x y := fm x * 2^(fe x - e) < fm y * 2^(fe y - e), e = min (fe x) (fe y): the
+   exact rational order of the two doubles.  Consecutive representable stamps are 1 ms apart, the
+   correctly rounded division errs by at most 2^-21 s on each side. *)
+Theorem C14_unix_seconds_monotone : forall a b, cds_valid a -> cds_valid b ->
+  (cds_lt a b <-> fl_lt (cds_unix_seconds a) (cds_unix_seconds b)).
+Proof. exact cds_unix_seconds_monotone. Qed.
+Print Assumptions C14_unix_seconds_monotone.
+Theorem C14_unix_seconds_injective : forall a b, cds_valid a -> cds_valid b ->
+  cds_unix_seconds a = cds_unix_seconds b -> a = b.
+Proof. exact cds_unix_seconds_inj. Qed.
+Print Assumptions C14_unix_seconds_injective.
+Example C14_unix_seconds_lt_inhabited :
+  fl_lt (cds_unix_seconds {| cdays := 4382; cms := 86399999 |}) (cds_unix_seconds {| cdays := 4383; cms := 0 |}) /\
+  fl_lt (cds_unix_seconds {| cdays := 4383; cms := 0 |}) (cds_unix_seconds {| cdays := 4383; cms := 1 |}) /\
+  fl_lt (cds_unix_seconds {| cdays := 65535; cms := 86399998 |}) (cds_unix_seconds {| cdays := 65535; cms := 86399999 |}).
+Proof. exact unix_seconds_lt_example. Qed.
 
 (* as_datetime (through datetime.fromtimestamp for instants >= 1970 and epoch + timedelta(seconds=float)
    before) is exactly 1958-01-01T00:00:00Z + days + ms, at microsecond resolution *)
